@@ -448,7 +448,12 @@ static void crash_key(int status, const char* errtxt, char* key, size_t cap) {
   const char* what = "crash";
   char detail[96] = "";
   const char* p;
-  if ((p = strstr(errtxt, "AddressSanitizer: "))) {
+  if (strstr(errtxt, "Assertion")) {
+    what = "assert";
+    /* name the assertion: file:line */
+    const char* q = strstr(errtxt, "/src/");
+    if (q) { sscanf(q + 5, "%80[^: ]", detail); const char* c = strchr(q, ':'); if (c) { size_t l = strlen(detail); snprintf(detail + l, sizeof detail - l, ":%d", atoi(c + 1)); } }
+  } else if ((p = strstr(errtxt, "AddressSanitizer: "))) {
     sscanf(p + 18, "%80[^ \n]", detail);
     what = "asan";
   } else if ((p = strstr(errtxt, "runtime error: "))) {
@@ -457,8 +462,6 @@ static void crash_key(int status, const char* errtxt, char* key, size_t cap) {
     for (char* q = detail; *q; q++)
       if (*q == '\n') { *q = 0; break; } else if (*q == ' ') *q = '-';
     what = "ubsan";
-  } else if (strstr(errtxt, "Assertion")) {
-    what = "assert";
   } else if (strstr(errtxt, "free():") || strstr(errtxt, "malloc():") || strstr(errtxt, "corrupted")) {
     what = "glibc-heap-abort";
   } else if (strstr(errtxt, "ThreadSanitizer")) {
